@@ -289,7 +289,9 @@ static struct hwloc_distances_s *fetch(hwloc_topology_t t, const struct mdist *w
   if (hwloc_distances_get(t, &nr, d, 0, 0) < 0) return NULL;
   if (nr > 24) nr = 24;
   for (unsigned i = 0; i < nr; i++) {
-    int same = !r && d[i]->nbobjs == want->n;
+    /* kind and name are part of the identity: two structures over the same objects can carry the same values */
+    const char *dn = hwloc_distances_get_name(t, d[i]);
+    int same = !r && d[i]->nbobjs == want->n && d[i]->kind == want->kind && (!!dn == !!want->hasname) && (!dn || !strcmp(dn, want->name));
     for (unsigned k = 0; same && k < want->n; k++) if (!d[i]->objs[k] || d[i]->objs[k]->gp_index != want->gp[k] || d[i]->values[k] != want->v[k]) same = 0;
     if (same) r = d[i]; else hwloc_distances_release(t, d[i]);
   }
